@@ -1,1 +1,225 @@
-fn main() { verif_common::machinery_error("engine not built yet"); }
+//! rt_body — engine for property C14 ("a buffered request body never exceeds the configured size
+//! limit"). Bounded-exhaustive enumeration executed against the real pavex code:
+//!   Part A: scripted `http_body::Body` fed to `BufferedBody::_extract_with_limit` through hook H1,
+//!           JSON / form extractors on top;
+//!   Part B: real `pavex::server::Server` on loopback, handler calling the public
+//!           `BufferedBody::extract`, raw TCP client controlling the HTTP/1.1 framing.
+mod model;
+mod part_a;
+mod part_b;
+mod script;
+
+use serde_json::{Value, json};
+use std::cell::{Cell, RefCell};
+use verif_common::Tier;
+
+thread_local! {
+    /// set while the thread is inside the code under test (panics are then captured, not printed)
+    pub static IN_SUBJECT: Cell<bool> = const { Cell::new(false) };
+    pub static LAST_PANIC: RefCell<String> = const { RefCell::new(String::new()) };
+}
+
+fn bounds(tier: Tier) -> (part_a::BoundsA, part_b::BoundsB) {
+    use part_b::WriteMode;
+    use script::Hint;
+    match tier {
+        Tier::Quick => (
+            part_a::BoundsA {
+                max_n: 4,
+                max_empty: 2,
+                max_pending: 2,
+                max_pending_err: 1,
+                hints: vec![Hint::Unknown, Hint::Exact],
+            },
+            part_b::BoundsB {
+                max_n: 3,
+                off_max_len: 5,
+                families: model::FAMILIES.to_vec(),
+                write_modes: vec![WriteMode::Single, WriteMode::PerPiece],
+            },
+        ),
+        Tier::Thorough => (
+            part_a::BoundsA {
+                max_n: 6,
+                max_empty: 2,
+                max_pending: 3,
+                max_pending_err: 2,
+                hints: vec![Hint::Unknown, Hint::Exact],
+            },
+            part_b::BoundsB {
+                max_n: 4,
+                off_max_len: 6,
+                families: model::FAMILIES.to_vec(),
+                write_modes: vec![WriteMode::Single, WriteMode::PerPiece],
+            },
+        ),
+    }
+}
+
+fn main() {
+    let args = verif_common::Args::parse();
+    if args.property != "C14" {
+        verif_common::machinery_error(&format!("rt_body serves C14 only, got `{}`", args.property));
+    }
+    let default_hook = std::panic::take_hook();
+    std::panic::set_hook(Box::new(move |info| {
+        if IN_SUBJECT.with(|f| f.get()) {
+            LAST_PANIC.with(|p| *p.borrow_mut() = info.to_string());
+        } else {
+            default_hook(info);
+        }
+    }));
+
+    if let Some(path) = &args.replay {
+        let case = verif_common::load_replay(path);
+        // replay files store {"case": <case>, "observed": ...} under "case"
+        let inner = case.get("case").cloned().unwrap_or(case);
+        let still = match inner.get("part").and_then(|p| p.as_str()) {
+            Some("A") => part_a::replay(&inner),
+            Some("B") => part_b::replay(&inner),
+            _ => verif_common::machinery_error("replay file has no `part` member"),
+        };
+        if still {
+            println!("REPLAY: still violates");
+            std::process::exit(1);
+        }
+        println!("REPLAY: no violation");
+        std::process::exit(0);
+    }
+
+    let mut rep = verif_common::Reporter::from_args(&args);
+    let (ba, bb) = bounds(args.tier);
+    let threads: usize = args
+        .extra("threads")
+        .and_then(|s| s.parse().ok())
+        .unwrap_or_else(|| std::thread::available_parallelism().map(|n| n.get()).unwrap_or(4).min(16));
+    let only = args.extra("part").map(|s| s.to_string());
+
+    let t0 = std::time::Instant::now();
+    let a = if only.as_deref() != Some("B") { part_a::run(&ba, args.seed, threads) } else { part_a::Acc::default() };
+    let wall_a = t0.elapsed().as_secs_f64();
+    let t1 = std::time::Instant::now();
+    let b = if only.as_deref() != Some("A") { part_b::run(&bb, args.seed, threads.min(8)) } else { part_b::AccB::default() };
+    let wall_b = t1.elapsed().as_secs_f64();
+
+    for (key, (_, what, case)) in &a.violations {
+        rep.violation(key, what, case.clone());
+    }
+    for (key, (_, what, case)) in &b.violations {
+        rep.violation(key, what, case.clone());
+    }
+
+    // non-vacuity guards: every clause of the oracle must have been exercised
+    let count = |h: &std::collections::BTreeMap<String, u64>, pat: &[&str]| -> u64 { h.iter().filter(|(k, _)| pat.iter().all(|p| k.contains(p))).map(|(_, v)| *v).sum() };
+    let mut vacuity = Vec::new();
+    if only.is_none() {
+        for (name, n) in [
+            ("A: Ok outcomes", count(&a.hist, &["-> Ok"])),
+            ("A: size-limit errors for len=N+1", count(&a.hist, &["len=N+1", "SizeLimit"])),
+            ("A: boundary len=N accepted", count(&a.hist, &["len=N ", "-> Ok"])),
+            ("A: lying header cases", count(&a.hist, &["hdr=lie_"])),
+            ("A: garbage header cases", count(&a.hist, &["hdr=garbage"])),
+            ("A: error-terminated bodies", count(&a.hist, &["body-error"])),
+            ("B: Ok outcomes", count(&b.hist, &["-> Ok"])),
+            ("B: size-limit errors", count(&b.hist, &["SizeLimit"])),
+            ("B: limit=off cases", count(&b.hist, &["limit=off"])),
+        ] {
+            if n == 0 && rep.violations.is_empty() {
+                vacuity.push(name);
+            }
+        }
+        if !vacuity.is_empty() {
+            verif_common::machinery_error(&format!("vacuous run, oracle branches never exercised: {vacuity:?}"));
+        }
+    }
+
+    let mut samples: Vec<Value> = Vec::new();
+    samples.extend(a.head_samples.iter().take(3).cloned());
+    samples.extend(a.bucket_sample.values().take(12).map(|(_, v)| v.clone()));
+    samples.extend(b.head_samples.iter().take(2).cloned());
+    samples.extend(b.bucket_sample.values().take(8).map(|(_, v)| v.clone()));
+    if samples.is_empty() {
+        samples.push(json!("no case executed"));
+    }
+
+    let rule = format!(
+        "Part A (in-process, hook H1 = BufferedBody::_extract_with_limit): limit N in 0..={}, body length L in 0..=N+2, \
+body content in families {:?} (pure function of family and L), every sequence of DATA frame sizes summing to L with at most {} \
+empty frames, optional TRAILERS frame at the end, terminal answer End (None) or Error (transport error; with <= {} Pending), every \
+multiset placement of 0..={} Poll::Pending answers (waker woken) before any frame or before the terminal answer, size_hint in {:?}, \
+Content-Length in {{absent, L, L-1, L+1, N, N+1, abc, 2^64, 2^64-1, +L, +(N+1), 0L, 00(N+1), ' L', -1, empty, 0xff, 'L, L', \
+dup[L,L], dup[L,N+1], dup[N+1,L], dup[abc,N+1]}} de-duplicated by value; full cartesian product, each tuple generated once. \
+Part B (loopback, real pavex::server::Server, handler calls public BufferedBody::extract + JsonBody/UrlEncodedBody::extract): \
+limit in 0..={} (BodySizeLimit::Enabled) and off (Disabled, L in 0..={}), L in 0..=N+2, every composition of the body into non-empty \
+HTTP/1.1 chunks (Transfer-Encoding: chunked) with/without trailer section x Content-Length in {{absent, before-TE: L, L-1, L+1, N, N+1, \
+abc, 2^64, dup[L,N+1]; after-TE: N+1}}, plus plain Content-Length framing with every split of the body into TCP writes; write modes {:?}. \
+Oracle (reference model in model.rs::judge): Ok(b) => b.len() <= N and b == bytes sent; well-formed body with L > N => Err(SizeLimitExceeded) \
+(never Ok, never UnexpectedBufferError); well-formed body with L <= N and Content-Length absent or truthful => Ok; well-formed body never \
+yields UnexpectedBufferError; a lying/garbage header may be rejected with SizeLimitExceeded or accepted with the exact bytes; a panic is a \
+violation; on every Ok the JSON and form extractors applied to the BufferedBody must equal the parse of the sent bytes. limit=off is read as \
+N = infinity. A case is non-trivial iff its body is non-empty and (it has >= 2 DATA frames/chunks or >= 1 Pending or a trailers frame or a \
+Content-Length header); distinctness holds by construction (each tuple of the product is generated exactly once).",
+        ba.max_n,
+        model::FAMILIES,
+        ba.max_empty,
+        ba.max_pending_err,
+        ba.max_pending,
+        ba.hints,
+        bb.max_n,
+        bb.off_max_len,
+        bb.write_modes,
+    );
+
+    let coverage = json!({
+        "evaluations": a.evaluations + b.evaluations,
+        "distinct_nontrivial": a.nontrivial + b.nontrivial,
+        "rule": rule,
+        "samples": samples,
+        "exhaustive": true,
+        "caps_hit": Value::Array(vec![]),
+        "part_a": {
+            "evaluations": a.evaluations,
+            "distinct_nontrivial": a.nontrivial,
+            "boundary_cases_len_eq_N_or_N_plus_1": a.boundary,
+            "multi_frame_cases": a.multi_frame,
+            "cases_with_pending": a.with_pending,
+            "violating_cases": a.violating_cases,
+            "extractor_checks_on_ok_bodies": a.extractor_checks,
+            "json_parsed_ok": a.json_ok,
+            "json_parse_errors_matching_reference": a.json_err,
+            "form_parsed_ok": a.form_ok,
+            "max_bytes_pulled_from_body_beyond_limit": a.max_bytes_pulled_beyond_limit,
+            "rejected_without_polling_the_body": a.rejected_without_polling_body,
+            "polls_after_terminal_answer": a.polled_after_terminal,
+            "outcome_histogram": a.hist,
+            "wall_s": wall_a,
+        },
+        "part_b": {
+            "evaluations": b.evaluations,
+            "distinct_nontrivial": b.nontrivial,
+            "violating_cases": b.violating_cases,
+            "limit_off_cases": b.disabled_cases,
+            "transport_rejects_by_http_stack": b.transport_rejects,
+            "transport_retries": b.transport_retries,
+            "outcome_histogram": b.hist,
+            "wall_s": wall_b,
+        },
+        "threads": threads,
+    });
+    println!(
+        "C14 part A: {} cases ({} non-trivial) in {:.1}s; part B: {} loopback cases ({} non-trivial, {} retries) in {:.1}s",
+        a.evaluations, a.nontrivial, wall_a, b.evaluations, b.nontrivial, b.transport_retries, wall_b
+    );
+    let code = rep.finish(
+        "exploration",
+        coverage,
+        &[
+            "hook H1 (verif_extract_with_limit) is a faithful pass-through to the private _extract_with_limit (it is one line)",
+            "Part A bodies use Data = bytes::Bytes; other Buf implementations are not enumerated",
+            "Part B: TCP segmentation below the write boundaries and hyper's own re-framing of chunks are not controlled; HTTP/2 framing is not exercised",
+            "the http / http-body-util / hyper crates are exercised as linked (versions of /repo/Cargo.lock), not modelled",
+            "usize is 64 bit on the verification host",
+        ],
+    );
+    std::process::exit(code);
+}
